@@ -61,6 +61,15 @@ pub struct ExUdpSocket(std::net::UdpSocket);
 pub struct ExIoError(std::io::Error);
 #[verifier::external_type_specification] #[verifier::external_body]
 pub struct ExInstant(std::time::Instant);
+pub assume_specification [std::time::Instant::now] () -> (r: std::time::Instant);
+// `Instant - Instant`: std documents that the result saturates to zero when `b` is later than `a` (no panic since 1.60),
+// so the operator has no precondition. vstd routes `a - b` through its generic `Sub::sub` specification whose
+// precondition is the uninterpreted `sub_req`; this axiom says it is `true` for Instant (nothing is said about the value).
+#[verifier::external_body]
+pub broadcast proof fn axiom_instant_sub_total(a: std::time::Instant, b: std::time::Instant)
+    ensures #[trigger] vstd::std_specs::ops::SubSpec::sub_req(a, b)
+{}
+pub assume_specification [std::time::Duration::as_millis] (d: &std::time::Duration) -> (r: u128);
 #[verifier::external_type_specification] #[verifier::external_body]
 pub struct ExSocketAddr(std::net::SocketAddr);
 #[verifier::external_type_specification] #[verifier::external_body]
